@@ -264,6 +264,32 @@ func (e *authEx) Exec(op string) string {
 		} else if b.Event != nil {
 			result = string(b.Event.Events[0].GetResult())
 		}
+	case "task2":
+		// the request is the second task of a list whose first task is somebody else's valid request
+		// for this very chaincode and channel: nothing established for the first may carry over
+		first := wd.Users[3]
+		before = e.c.L.Snapshot()
+		firstArgs := e.c.Signed(first, "whoAmI")
+		b := e.c.ExecTasks(&fpb.Task{Id: simpeer.NewTxID(), Method: "whoAmI", Args: firstArgs},
+			&fpb.Task{Id: simpeer.NewTxID(), Method: fn, Args: args})
+		if b.Resp == nil || len(b.Resp.TxResponses) != 2 {
+			errText = "tasks failed: " + b.Res.Resp.Message
+			break
+		}
+		if x := b.Resp.TxResponses[1].GetError(); x != nil {
+			errText = x.GetError()
+			// what the first task legitimately wrote is not this request's effect
+			after := e.c.L.Snapshot()
+			if b.Resp.TxResponses[0].GetError() == nil {
+				for _, w := range b.Resp.TxResponses[0].GetWrites() {
+					before[w.GetKey()] = after[w.GetKey()]
+				}
+				nk := "\x002a\x00" + first.Addr + "\x00" // the first sender's nonce window
+				before[nk] = after[nk]
+			}
+		} else if b.Event != nil {
+			result = string(b.Event.Events[1].GetResult())
+		}
 	case "nb":
 		r := e.c.Invoke(wd.Client.Creator, simpeer.NewTxID(), fn, args...)
 		if !r.OK() {
